@@ -1,6 +1,7 @@
 package main
 
 import (
+	"fmt"
 	"go/ast"
 	"go/parser"
 	"go/token"
@@ -49,12 +50,58 @@ func writtenGlobals(dir string, entries []string) ([]string, error) {
 			}
 		}
 	}
+	typeNames := map[string]bool{}
+	for _, f := range files {
+		for _, d := range f.Decls {
+			if gd, ok := d.(*ast.GenDecl); ok && gd.Tok == token.TYPE {
+				for _, s := range gd.Specs {
+					typeNames[s.(*ast.TypeSpec).Name.Name] = true
+				}
+			}
+		}
+	}
+	// isConv: T(x) / (*T)(x) with T a type of the package: a conversion, the same pointer
+	isConv := func(c *ast.CallExpr) bool {
+		if len(c.Args) != 1 {
+			return false
+		}
+		fun := c.Fun
+		for {
+			if p, ok := fun.(*ast.ParenExpr); ok {
+				fun = p.X
+				continue
+			}
+			if st, ok := fun.(*ast.StarExpr); ok {
+				fun = st.X
+				continue
+			}
+			break
+		}
+		id, ok := fun.(*ast.Ident)
+		return ok && typeNames[id.Name]
+	}
+	stripConv := func(e ast.Expr) ast.Expr {
+		for {
+			switch x := e.(type) {
+			case *ast.ParenExpr:
+				e = x.X
+				continue
+			case *ast.CallExpr:
+				if isConv(x) {
+					e = x.Args[0]
+					continue
+				}
+			}
+			return e
+		}
+	}
 	// function bodies (methods keyed by bare name: interface dispatch is over-approximated)
 	type fn struct {
 		body   *ast.BlockStmt
 		params map[string]bool
 		recv   string // receiver name of a method with a pointer receiver ("" otherwise)
 		method bool
+		plist  []string // parameter names in order ("" for unnamed / blank); nil if variadic
 	}
 	funcs := map[string][]fn{}
 	for _, f := range files {
@@ -64,6 +111,27 @@ func writtenGlobals(dir string, entries []string) ([]string, error) {
 				continue
 			}
 			f0 := fn{body: fd.Body}
+			if fd.Type.Params != nil {
+				variadic := false
+				for _, fl := range fd.Type.Params.List {
+					if _, ok := fl.Type.(*ast.Ellipsis); ok {
+						variadic = true
+					}
+					if len(fl.Names) == 0 {
+						f0.plist = append(f0.plist, "")
+					}
+					for _, n := range fl.Names {
+						f0.plist = append(f0.plist, n.Name)
+					}
+				}
+				if variadic {
+					f0.plist = nil
+				} else if f0.plist == nil {
+					f0.plist = []string{}
+				}
+			} else {
+				f0.plist = []string{}
+			}
 			if fd.Recv != nil && len(fd.Recv.List) == 1 {
 				f0.method = true
 				if _, ptr := fd.Recv.List[0].Type.(*ast.StarExpr); ptr && len(fd.Recv.List[0].Names) == 1 {
@@ -94,6 +162,23 @@ func writtenGlobals(dir string, entries []string) ([]string, error) {
 				}
 			}
 		}
+	}
+	// struct fields of function type: `p.f(x)` on such a field reads the field and calls the value;
+	// it is not a method that could write through p
+	funcFields := map[string]bool{}
+	for _, f := range files {
+		ast.Inspect(f, func(n ast.Node) bool {
+			if st, ok := n.(*ast.StructType); ok && st.Fields != nil {
+				for _, fl := range st.Fields.List {
+					if _, isFn := fl.Type.(*ast.FuncType); isFn {
+						for _, nm := range fl.Names {
+							funcFields[nm.Name] = true
+						}
+					}
+				}
+			}
+			return true
+		})
 	}
 	// locally declared names shadow globals: collect per function
 	localNames := func(b *ast.BlockStmt) map[string]bool {
@@ -145,12 +230,212 @@ func writtenGlobals(dir string, entries []string) ([]string, error) {
 			}
 		}
 	}
-	// pointerUses: how a local pointer `name` is used inside `body`: written through (assignment or
-	// ++/-- rooted at it), escaping (passed on, returned, stored, re-addressed), or only read (field
-	// access, indexing, dereference, calls of methods that themselves only read through their
-	// receiver).  Anything but "only read" counts as a possible write.
+	// Pointer uses. A "pointer expression" is a local variable holding the address of (part of) a
+	// package-level variable, a struct field holding one, `&G[...]` itself, or a call of a function
+	// that returns one. classify looks at the syntactic context of one occurrence and answers whether
+	// something may be written through it or whether it escapes to where this analysis does not follow
+	// (true), or whether it is only read there (false): field access, indexing, dereference into a copy,
+	// comparison, iteration, calls of methods / functions of the package that themselves only read
+	// through their receiver / parameter, copies into other locals or struct fields that are in turn
+	// only read, and (allowReturn) being returned from a function whose callers are examined instead.
 	var methodWrites func(name string, depth int) bool
-	pointerMayWrite := func(body *ast.BlockStmt, name string, depth int) bool {
+	var paramMayWrite func(name string, i int, depth int) bool
+	var fieldMayWrite func(field string, depth int) bool
+	var pointerMayWrite func(body *ast.BlockStmt, name string, depth int) bool
+	allowReturn := false
+	classify := func(x ast.Expr, stack []ast.Node, body *ast.BlockStmt, loc map[string]bool, depth int) bool {
+		if depth > 6 {
+			return true
+		}
+		cur := x
+		deref := false // a value copied out of the pointee, no longer the pointer
+		elem := false  // an element / field of the pointee (addressable)
+		for i := len(stack) - 1; i >= 0; i-- {
+			switch par := stack[i].(type) {
+			case *ast.ParenExpr:
+				cur = par
+				continue
+			case *ast.StarExpr:
+				cur = par
+				deref = true
+				continue
+			case *ast.SelectorExpr:
+				if par.Sel == cur {
+					return false // the name of a field that happens to be spelled like the variable
+				}
+				if par.X != cur {
+					return true
+				}
+				if i >= 1 {
+					if call, ok := stack[i-1].(*ast.CallExpr); ok && call.Fun == ast.Expr(par) {
+						if elem || deref {
+							return true // method of an element's type: may write the element
+						}
+						if _, isMethod := funcs[par.Sel.Name]; !isMethod && funcFields[par.Sel.Name] {
+							return false // a function value stored in a field: the call does not write through x
+						}
+						return methodWrites(par.Sel.Name, depth+1)
+					}
+				}
+				cur = par
+				elem = true
+				continue
+			case *ast.IndexExpr:
+				if par.X != cur {
+					return deref || elem // used as an index: a read
+				}
+				cur = par
+				elem = true
+				continue
+			case *ast.SliceExpr:
+				return true // a slice of the pointee shares its memory
+			case *ast.UnaryExpr:
+				return par.Op == token.AND // the address of an element
+			case *ast.CallExpr:
+				if !deref && !elem && par.Fun != cur && isConv(par) {
+					cur = par
+					continue
+				}
+				if par.Fun == cur || deref || elem {
+					// the value of an element / field is passed: a copy (of the element)
+					return false
+				}
+				cname := ""
+				switch fx := par.Fun.(type) {
+				case *ast.Ident:
+					cname = fx.Name
+				case *ast.SelectorExpr:
+					cname = fx.Sel.Name
+				}
+				if cname == "" {
+					return true
+				}
+				for ai, a := range par.Args {
+					if a == cur {
+						return paramMayWrite(cname, ai, depth+1)
+					}
+				}
+				return true
+			case *ast.AssignStmt:
+				for _, l := range par.Lhs {
+					if l == cur {
+						return false // (re)binding, or the write-through check of the caller saw it
+					}
+				}
+				if deref || elem {
+					return false // a copy of the value
+				}
+				if len(par.Lhs) != len(par.Rhs) {
+					return true
+				}
+				for j, r := range par.Rhs {
+					if r != cur {
+						continue
+					}
+					switch l := par.Lhs[j].(type) {
+					case *ast.Ident:
+						if l.Name == "_" {
+							return false
+						}
+						if globals[l.Name] && !loc[l.Name] {
+							return true
+						}
+						return pointerMayWrite(body, l.Name, depth+1)
+					case *ast.SelectorExpr:
+						if r, ok := rootIdent(l.X); ok && globals[r] && !loc[r] {
+							return true
+						}
+						return fieldMayWrite(l.Sel.Name, depth+1)
+					}
+					return true
+				}
+				return true
+			case *ast.ValueSpec:
+				for _, nm := range par.Names {
+					if ast.Expr(nm) == cur {
+						return false
+					}
+				}
+				if deref || elem {
+					return false
+				}
+				if len(par.Names) != len(par.Values) {
+					return true
+				}
+				for j, v := range par.Values {
+					if v == cur {
+						if par.Names[j].Name == "_" {
+							return false
+						}
+						return pointerMayWrite(body, par.Names[j].Name, depth+1)
+					}
+				}
+				return true
+			case *ast.KeyValueExpr:
+				if par.Key == cur {
+					return false
+				}
+				if deref || elem {
+					return false
+				}
+				// T{F: p}: stored in field F of a struct
+				if k, ok := par.Key.(*ast.Ident); ok && !loc[k.Name] && !globals[k.Name] && i >= 1 {
+					if cl, ok := stack[i-1].(*ast.CompositeLit); ok {
+						switch cl.Type.(type) {
+						case *ast.Ident, *ast.SelectorExpr:
+							return fieldMayWrite(k.Name, depth+1)
+						}
+					}
+				}
+				return true
+			case *ast.BinaryExpr:
+				return false // comparison
+			case *ast.ReturnStmt:
+				if deref || elem {
+					return false
+				}
+				return !allowReturn
+			case *ast.RangeStmt:
+				if par.X == cur || par.Key == cur || par.Value == cur {
+					return false // iteration copies the elements
+				}
+				return true
+			case *ast.IfStmt, *ast.ExprStmt, *ast.SwitchStmt, *ast.CaseClause, *ast.BlockStmt:
+				return false
+			default:
+				// a value read out of the pointee used in some other expression is a copy; the pointer
+				// itself anywhere else escapes
+				return !(deref || elem)
+			}
+		}
+		return true
+	}
+	// throughPtr: an assignment target that designates (part of) what a pointer expression points to
+	throughPtr := func(l ast.Expr, isPtr func(ast.Expr) bool) bool {
+		e := l
+		for {
+			switch x := e.(type) {
+			case *ast.SelectorExpr:
+				e = x.X
+			case *ast.IndexExpr:
+				e = x.X
+			case *ast.StarExpr:
+				e = x.X
+			case *ast.ParenExpr:
+				e = x.X
+			default:
+				return false
+			}
+			if isPtr(e) {
+				return true
+			}
+		}
+	}
+	ptrUse := func(body *ast.BlockStmt, isPtr func(ast.Expr) bool, depth int) bool {
+		if depth > 6 {
+			return true
+		}
+		loc := localNames(body)
 		bad := false
 		var stack []ast.Node
 		ast.Inspect(body, func(n ast.Node) bool {
@@ -158,62 +443,95 @@ func writtenGlobals(dir string, entries []string) ([]string, error) {
 				stack = stack[:len(stack)-1]
 				return true
 			}
+			if bad {
+				stack = append(stack, n)
+				return true
+			}
 			switch x := n.(type) {
 			case *ast.AssignStmt:
 				for _, l := range x.Lhs {
-					if id, ok := l.(*ast.Ident); ok && id.Name == name {
-						continue // (re)binding the variable itself is not a write through it
-					}
-					if r, ok := rootIdent(l); ok && r == name {
+					if throughPtr(l, isPtr) {
 						bad = true
 					}
 				}
 			case *ast.IncDecStmt:
-				if r, ok := rootIdent(x.X); ok && r == name {
+				if throughPtr(x.X, isPtr) {
 					bad = true
 				}
-			case *ast.Ident:
-				if x.Name == name && len(stack) > 0 {
-					switch par := stack[len(stack)-1].(type) {
-					case *ast.SelectorExpr:
-						if par.X == ast.Expr(x) {
-							// field read, or a method call: look at the callee
-							if len(stack) > 1 {
-								if call, ok := stack[len(stack)-2].(*ast.CallExpr); ok && call.Fun == ast.Expr(par) {
-									if methodWrites(par.Sel.Name, depth+1) {
-										bad = true
-									}
-								}
-							}
-						} else {
-							bad = true
-						}
-					case *ast.IndexExpr:
-						if par.X != ast.Expr(x) {
-							bad = true
-						}
-					case *ast.StarExpr, *ast.ParenExpr:
-					case *ast.AssignStmt:
-						isLhs := false
-						for _, l := range par.Lhs {
-							if l == ast.Expr(x) {
-								isLhs = true
-							}
-						}
-						if !isLhs {
-							bad = true // copied into another variable: escapes
-						}
-					case *ast.BinaryExpr:
-						// comparison with nil and the like
-					default:
-						bad = true // argument, return value, composite literal, &x, ...
-					}
+			}
+			if e, ok := n.(ast.Expr); ok && isPtr(e) {
+				st := make([]ast.Node, len(stack))
+				copy(st, stack)
+				if classify(e, st, body, loc, depth) {
+					bad = true
 				}
 			}
 			stack = append(stack, n)
 			return true
 		})
 		return bad
+	}
+	ptrSeen := map[string]bool{}
+	pointerMayWrite = func(body *ast.BlockStmt, name string, depth int) bool {
+		key := fmt.Sprintf("%p#%s", body, name)
+		if ptrSeen[key] {
+			return false // already being examined (p = q; q = p): decided by the outer call
+		}
+		ptrSeen[key] = true
+		defer delete(ptrSeen, key)
+		return ptrUse(body, func(e ast.Expr) bool {
+			id, ok := e.(*ast.Ident)
+			return ok && id.Name == name
+		}, depth)
+	}
+	fieldSeen := map[string]bool{}
+	fieldMayWrite = func(field string, depth int) bool {
+		if depth > 6 {
+			return true
+		}
+		if fieldSeen[field] {
+			return false
+		}
+		fieldSeen[field] = true
+		defer delete(fieldSeen, field)
+		saved := allowReturn
+		allowReturn = false
+		defer func() { allowReturn = saved }()
+		for _, fs := range funcs {
+			for _, f := range fs {
+				if ptrUse(f.body, func(e ast.Expr) bool {
+					se, ok := e.(*ast.SelectorExpr)
+					return ok && se.Sel.Name == field
+				}, depth) {
+					return true
+				}
+			}
+		}
+		return false
+	}
+	paramSeen := map[string]bool{}
+	paramMayWrite = func(name string, i int, depth int) bool {
+		if depth > 6 {
+			return true
+		}
+		fs, ok := funcs[name]
+		if !ok || len(fs) != 1 || fs[0].plist == nil || i >= len(fs[0].plist) {
+			return true // unknown callee (another package, a function value), several candidates, variadic
+		}
+		if fs[0].plist[i] == "" || fs[0].plist[i] == "_" {
+			return false // unnamed or blank parameter: never used
+		}
+		key := name + "#" + fs[0].plist[i]
+		if paramSeen[key] {
+			return false
+		}
+		paramSeen[key] = true
+		defer delete(paramSeen, key)
+		saved := allowReturn
+		allowReturn = false
+		r := pointerMayWrite(fs[0].body, fs[0].plist[i], depth)
+		allowReturn = saved
+		return r
 	}
 	methodSeen := map[string]bool{}
 	methodWrites = func(name string, depth int) bool {
@@ -235,6 +553,103 @@ func writtenGlobals(dir string, entries []string) ([]string, error) {
 				return true
 			}
 			if f.recv != "" && pointerMayWrite(f.body, f.recv, depth) {
+				return true
+			}
+		}
+		return false
+	}
+	// returnsPtr: plain functions that return a pointer into one package-level variable (`return &G[i]`,
+	// or a local `p := &G[i]` that is only read and returned). A call of such a function is treated at
+	// the call site like `&G[...]` itself.
+	isGlobalExpr := func(e ast.Expr, loc map[string]bool) (string, bool) {
+		r, ok := rootIdent(e)
+		if ok && globals[r] && !loc[r] {
+			return r, true
+		}
+		return "", false
+	}
+	// returnsPtr[f][i] = the package-level variables result i of plain function f may point into
+	returnsPtr := map[string]map[int]map[string]bool{}
+	// pointsInto: the package-level variables a pointer-valued expression designates directly:
+	// &G[...], T(&G[...]), f(...) with f summarised (single pointer result)
+	pointsInto := func(e ast.Expr, loc map[string]bool) map[string]bool {
+		e = stripConv(e)
+		if ue, ok := e.(*ast.UnaryExpr); ok && ue.Op == token.AND {
+			if g, ok := isGlobalExpr(ue.X, loc); ok {
+				return map[string]bool{g: true}
+			}
+		}
+		if c, ok := e.(*ast.CallExpr); ok {
+			if fid, ok := c.Fun.(*ast.Ident); ok && !loc[fid.Name] {
+				if rp, ok := returnsPtr[fid.Name]; ok && len(rp) == 1 && rp[0] != nil {
+					return rp[0]
+				}
+			}
+		}
+		return nil
+	}
+	for round := 0; round < 4; round++ { // to a fixed point over accessors calling accessors
+		changed := false
+		for name, fs := range funcs {
+			if len(fs) != 1 || fs[0].method || strings.HasPrefix(name, "var:") {
+				continue
+			}
+			f := fs[0]
+			loc := localNames(f.body)
+			alias := map[string]map[string]bool{}
+			ast.Inspect(f.body, func(n ast.Node) bool {
+				if as, ok := n.(*ast.AssignStmt); ok && len(as.Lhs) == 1 && len(as.Rhs) == 1 {
+					if id, ok := as.Lhs[0].(*ast.Ident); ok && loc[id.Name] {
+						for g := range pointsInto(as.Rhs[0], loc) {
+							if alias[id.Name] == nil {
+								alias[id.Name] = map[string]bool{}
+							}
+							alias[id.Name][g] = true
+						}
+					}
+				}
+				return true
+			})
+			ast.Inspect(f.body, func(n ast.Node) bool {
+				if _, isLit := n.(*ast.FuncLit); isLit {
+					return false
+				}
+				rs, ok := n.(*ast.ReturnStmt)
+				if !ok {
+					return true
+				}
+				for i, e := range rs.Results {
+					add := func(g string) {
+						if returnsPtr[name] == nil {
+							returnsPtr[name] = map[int]map[string]bool{}
+						}
+						if returnsPtr[name][i] == nil {
+							returnsPtr[name][i] = map[string]bool{}
+						}
+						if !returnsPtr[name][i][g] {
+							returnsPtr[name][i][g] = true
+							changed = true
+						}
+					}
+					for g := range pointsInto(e, loc) {
+						add(g)
+					}
+					if id, ok := stripConv(e).(*ast.Ident); ok {
+						for g := range alias[id.Name] {
+							add(g)
+						}
+					}
+				}
+				return true
+			})
+		}
+		if !changed {
+			break
+		}
+	}
+	returnsInto := func(name, g string) bool {
+		for _, set := range returnsPtr[name] {
+			if set[g] {
 				return true
 			}
 		}
@@ -271,30 +686,99 @@ func writtenGlobals(dir string, entries []string) ([]string, error) {
 					}
 				}
 			}
-			// p := &G[...] (or p = &G...) with p a local variable: the address does not count as a write
-			// of G by itself; what is done through p decides
+			// `&G[...]` and calls of functions returning such pointers are pointer expressions: their
+			// context decides (classify); the address alone is not a write of G
 			handled := map[ast.Node]bool{}
-			ast.Inspect(f.body, func(n ast.Node) bool {
-				as, ok := n.(*ast.AssignStmt)
-				if !ok || len(as.Lhs) != 1 || len(as.Rhs) != 1 {
-					return true
-				}
-				id, ok := as.Lhs[0].(*ast.Ident)
-				if !ok || globals[id.Name] && !loc[id.Name] {
-					return true
-				}
-				ue, ok := as.Rhs[0].(*ast.UnaryExpr)
-				if !ok || ue.Op != token.AND {
-					return true
-				}
-				if g, ok := isGlobal(ue.X); ok {
-					handled[ue] = true
-					if pointerMayWrite(f.body, id.Name, 0) {
-						written[g] = true
+			{
+				var stack []ast.Node
+				ast.Inspect(f.body, func(n ast.Node) bool {
+					if n == nil {
+						stack = stack[:len(stack)-1]
+						return true
 					}
-				}
-				return true
-			})
+					var gs map[string]bool
+					switch x := n.(type) {
+					case *ast.UnaryExpr:
+						if x.Op == token.AND {
+							if g, ok := isGlobal(x.X); ok {
+								gs = map[string]bool{g: true}
+							}
+						}
+					case *ast.CallExpr:
+						if fid, ok := x.Fun.(*ast.Ident); ok && !loc[fid.Name] {
+							if rp, ok := returnsPtr[fid.Name]; ok {
+								if len(rp) == 1 && rp[0] != nil && len(stack) > 0 {
+									if as, isAs := stack[len(stack)-1].(*ast.AssignStmt); !isAs || len(as.Lhs) == len(as.Rhs) {
+										gs = rp[0]
+									}
+								}
+								// x, p, y := f(...): each pointer result bound to a local variable
+								if as, isAs := stack[len(stack)-1].(*ast.AssignStmt); gs == nil && isAs && len(as.Rhs) == 1 && len(as.Lhs) > 1 {
+									okAll := true
+									for i := range rp {
+										if i >= len(as.Lhs) {
+											okAll = false
+											continue
+										}
+										id, isIdent := as.Lhs[i].(*ast.Ident)
+										if !isIdent || (globals[id.Name] && !loc[id.Name]) {
+											okAll = false
+										}
+									}
+									if okAll {
+										handled[x] = true
+										for i, set := range rp {
+											id := as.Lhs[i].(*ast.Ident)
+											if id.Name == "_" {
+												continue
+											}
+											allowReturn = false
+											for g := range set {
+												allowReturn = allowReturn || returnsInto(name, g)
+											}
+											if pointerMayWrite(f.body, id.Name, 0) {
+												for g := range set {
+													written[g] = true
+												}
+											}
+											allowReturn = false
+										}
+									}
+								}
+							}
+						}
+					}
+					if id, ok := n.(*ast.Ident); ok && !loc[id.Name] && len(stack) > 0 {
+						if rp, ok := returnsPtr[id.Name]; ok {
+							if call, isCall := stack[len(stack)-1].(*ast.CallExpr); !isCall || call.Fun != ast.Expr(id) {
+								// the function used as a value: its callers are not known
+								for _, set := range rp {
+									for g := range set {
+										written[g] = true
+									}
+								}
+							}
+						}
+					}
+					if gs != nil {
+						handled[n] = true
+						allowReturn = false
+						for g := range gs {
+							allowReturn = allowReturn || returnsInto(name, g)
+						}
+						st := make([]ast.Node, len(stack))
+						copy(st, stack)
+						if classify(n.(ast.Expr), st, f.body, loc, 0) {
+							for g := range gs {
+								written[g] = true
+							}
+						}
+						allowReturn = false
+					}
+					stack = append(stack, n)
+					return true
+				})
+			}
 			ast.Inspect(f.body, func(n ast.Node) bool {
 				switch x := n.(type) {
 				case *ast.AssignStmt:
@@ -318,13 +802,22 @@ func writtenGlobals(dir string, entries []string) ([]string, error) {
 				case *ast.CallExpr:
 					switch fx := x.Fun.(type) {
 					case *ast.Ident:
+						if rp, ok := returnsPtr[fx.Name]; ok && !handled[x] && !loc[fx.Name] {
+							for _, gs := range rp {
+								for g := range gs {
+									written[g] = true // the pointer is used in a way this analysis does not follow
+								}
+							}
+						}
 						visit(fx.Name)
 					case *ast.SelectorExpr:
 						// method call on a package-level variable (may mutate through a pointer receiver)
 						if id, ok := fx.X.(*ast.Ident); ok && globals[id.Name] && !loc[id.Name] {
-							if _, isMethodOfPkg := funcs[fx.Sel.Name]; isMethodOfPkg || true {
-								// reading helpers on immutable tables are not writes; flag only non-table receivers
-								if !strings.HasPrefix(id.Name, "_") && id.Name != "le" && id.Name != "be" && id.Name != "timeBase" {
+							// methods of the package that do not write through their receiver (value receivers,
+							// or pointer receivers only read) are not writes; reading helpers of other
+							// packages on the immutable tables / byte orders / the time base neither
+							if !strings.HasPrefix(id.Name, "_") && id.Name != "le" && id.Name != "be" && id.Name != "timeBase" {
+								if _, isFnField := funcs[fx.Sel.Name]; !(!isFnField && funcFields[fx.Sel.Name]) && methodWrites(fx.Sel.Name, 1) {
 									written[id.Name] = true
 								}
 							}
